@@ -49,7 +49,7 @@ def setup(w, name="", tier="thorough", selected=None):
             if selected is None or nm in selected:
                 f.write("arm!(%s, step_%s, %d, %d);\n" % (nm, step, l, n))
     w.inject(fb, "c14_fifo.rs")
-    return core.KaniSession(w, w.ws, pkg="yash-env", tag="env")
+    return core.KaniSession(w, w.ws, pkg="yash-env", tag="env", zflags=["stubbing"])
 
 
 def harnesses(tier):
@@ -69,6 +69,8 @@ def run(tier, seed, only=None):
     out.assumptions = [
         "T6: PIPE_BUF scaled from 512 to 4 in the snapshot (PIPE_SIZE = 2 * PIPE_BUF follows); the pipe algorithm is parametric in the constant",
         "T10: the WakerSet fields of the FIFO are replaced by a counting stand-in (the data path never reads them)",
+        "the ring buffer is pre-allocated at PIPE_SIZE in the pre-state (std's reallocation is not part of the claim); the stored ORDER of "
+        "accepted bytes after a write (VecDeque::extend) is not decided - every variant that read them back exceeded 10-12 GB",
         "inductive step over ONE pipe: any fill level, any request size up to beyond the capacity, any byte values; the transfer loops "
         "on top (Concurrent::write_all / read_all), pipeline wiring, command substitution's newline trimming and here-documents are outside "
         "(async closures / concurrency)",
